@@ -21,6 +21,8 @@ type c16In struct {
 	Last  int64  `json:"last,omitempty"`
 	Now   int64  `json:"now,omitempty"`
 	MaxD  int64  `json:"maxd,omitempty"` // seconds
+	// where last+maxd was placed relative to the earliest window the schedules offer (generator bookkeeping only)
+	Boundary string `json:"boundary,omitempty"`
 }
 
 func c16Z(n int64) string { return vh.CoqZ(n) }
@@ -125,19 +127,44 @@ func c16Exec(i c16In) vh.Out {
 				break
 			}
 		}
+		// which shape the window has (used only to key the two recorded findings): was it produced by a flattened clock
+		// span whose START is 24:00 (then its base date is the day before its start), and does its last minute lie on a
+		// later calendar day than its start
+		from2400 := false
+		for _, ts := range s.flattenedClockSpans() {
+			if ts.Start.Hour == 24 {
+				cand := ts.Window(w.Start.Add(-24 * time.Hour))
+				if cand.Start.Equal(w.Start) && cand.End.Equal(w.End) {
+					from2400 = true
+				}
+			}
+		}
+		tailNextDay := w.End.After(w.Start) && w.End.Add(-time.Minute).Unix()/86400 > w.Start.Unix()/86400
 		return vh.Out{Observed: map[string]interface{}{"start": w.Start.Format(time.RFC3339), "end": w.End.Format(time.RFC3339), "spread": w.Spread,
+			"start_unix": w.Start.Unix(), "end_unix": w.End.Unix(), "from_span_starting_2400": from2400, "last_minute_on_later_day": tailNextDay,
 			"includes_start": incStart, "includes_last_minute": incTail, "sched": s.String()},
 			Coq: fmt.Sprintf("(CNext %s %s %s %s %s %s)", c16Sched(s), c16Z(i.Last), c16Z(i.Now), c16Win(w), vh.CoqBool(incStart), vh.CoqBool(incTail)),
 			NonTrivial: len(s.WeekSpans) > 0 || len(s.ClockSpans) > 0, Tags: tags}
 	case "top":
+		var nexts []string
+		var nextsObs []string
+		for _, sc := range scheds {
+			w := sc.Next(last)
+			nexts = append(nexts, c16Win(w))
+			nextsObs = append(nextsObs, w.Start.UTC().Format(time.RFC3339)+"/"+w.End.UTC().Format(time.RFC3339))
+		}
 		d := Next(scheds, last, time.Duration(i.MaxD)*time.Second)
 		tag := "top"
 		if i.Last+i.MaxD < i.Now {
 			tag = "top-overdue"
 		}
-		return vh.Out{Observed: map[string]interface{}{"delay_ns": int64(d)},
-			Coq: fmt.Sprintf("(CTop %s %s %s %s %s)", c16Scheds(scheds), c16Z(i.Last), c16Z(i.Now), c16Z(i.MaxD), c16Z(int64(d))),
-			NonTrivial: true, Tags: []string{tag}}
+		tags := []string{tag}
+		if i.Boundary != "" {
+			tags = append(tags, "limit-"+i.Boundary)
+		}
+		return vh.Out{Observed: map[string]interface{}{"delay_ns": int64(d), "nexts": nextsObs},
+			Coq: fmt.Sprintf("(CTop %s %s %s %s %s %s)", c16Scheds(scheds), c16Z(i.Last), c16Z(i.Now), c16Z(i.MaxD), vh.CoqList(nexts), c16Z(int64(d))),
+			NonTrivial: true, Tags: tags}
 	case "inc":
 		r := Includes(scheds, now)
 		return vh.Out{Observed: map[string]interface{}{"includes": r},
@@ -214,6 +241,38 @@ func c16GenTimer(r *vh.Rand) string {
 	return strings.Join(sets, ",,")
 }
 
+// c16Boundary places the limit last+maxd around the earliest window W the real code offers after last (with
+// timeNow = now): just before/at/after W.Start, inside W, and around W.End.
+func c16Boundary(timer string, last, now int64) []c16In {
+	scheds, err := ParseSchedule(timer)
+	if err != nil {
+		return nil
+	}
+	old := timeNow
+	defer func() { timeNow = old }()
+	timeNow = func() time.Time { return time.Unix(now, 0).UTC() }
+	var w ScheduleWindow
+	for k, sc := range scheds {
+		n := sc.Next(time.Unix(last, 0).UTC())
+		if k == 0 || n.Start.Before(w.Start) {
+			w = n
+		}
+	}
+	ws, we := w.Start.Unix(), w.End.Unix()
+	var out []c16In
+	for _, b := range []struct {
+		name string
+		at   int64
+	}{{"start-1", ws - 1}, {"start", ws}, {"start+1", ws + 1}, {"start-1h", ws - 3600}, {"start-59m", ws - 3540}, {"start-61m", ws - 3660},
+		{"mid", (ws + we) / 2}, {"end-1", we - 1}, {"end", we}, {"end+1", we + 1}} {
+		if b.at-last <= 0 {
+			continue
+		}
+		out = append(out, c16In{Kind: "top", Timer: timer, Last: last, Now: now, MaxD: b.at - last, Boundary: b.name})
+	}
+	return out
+}
+
 func c16Gen(r *vh.Rand, tier string, n int) []c16In {
 	if n <= 0 {
 		n = 600
@@ -246,6 +305,9 @@ func c16Gen(r *vh.Rand, tier string, n int) []c16In {
 		out = append(out, c16In{Kind: "parse", Timer: f})
 		out = append(out, c16In{Kind: "top", Timer: f, Last: monday, Now: monday + 3600, MaxD: 95 * 86400})
 	}
+	for _, f := range []string{"00:00~24:00/4", "mon,10:00,,fri,15:00", "mon-wed,fri,9:00-11:00/2", "23:00~01:00/2", "fri5", "tue2,0:00-24:00"} {
+		out = append(out, c16Boundary(f, monday, monday+60)...)
+	}
 	malAlpha := "montuewdhfris0123456789:-~/, "
 	for len(out) < n {
 		k := r.Intn(20)
@@ -253,6 +315,16 @@ func c16Gen(r *vh.Rand, tier string, n int) []c16In {
 		switch {
 		case k < 9:
 			out = append(out, c16In{Kind: "next", Timer: c16GenTimer(r), Last: l, Now: l + delta()})
+		case k < 10:
+			// the limit placed at the edges of the first window on offer
+			l2 := l
+			nw := l2 + int64(r.Intn(7200))
+			bs := c16Boundary(c16GenTimer(r), l2, nw)
+			for _, b := range bs {
+				if r.Chance(1, 2) {
+					out = append(out, b)
+				}
+			}
 		case k < 12:
 			maxd := int64(95 * 86400)
 			if r.Chance(1, 3) {
@@ -290,3 +362,66 @@ func c16Gen(r *vh.Rand, tier string, n int) []c16In {
 }
 
 func TestVerifC16(t *testing.T) { vh.Run(c16Gen, c16Exec) }
+
+// ------------------------------------------------------------------ string level: ParseSchedule / String (V.models.TimerText.tcase)
+
+type c16TextIn struct {
+	Text string `json:"text"`
+}
+
+func c16TextExec(i c16TextIn) vh.Out {
+	scheds, err := ParseSchedule(i.Text)
+	if err != nil {
+		return vh.Out{Observed: map[string]interface{}{"accepted": false},
+			Coq: fmt.Sprintf("(TParse %s None [])", vh.CoqBytes(i.Text)), NonTrivial: false, Tags: []string{"text-rejected"}}
+	}
+	var strs, strsCoq []string
+	for _, s := range scheds {
+		strs = append(strs, s.String())
+		strsCoq = append(strsCoq, vh.CoqBytes(s.String()))
+	}
+	return vh.Out{Observed: map[string]interface{}{"accepted": true, "strings": strs},
+		Coq:        fmt.Sprintf("(TParse %s (Some %s) %s)", vh.CoqBytes(i.Text), c16Scheds(scheds), vh.CoqList(strsCoq)),
+		NonTrivial: true, Tags: []string{"text-accepted"}}
+}
+
+func c16TextGen(r *vh.Rand, tier string, n int) []c16TextIn {
+	if n <= 0 {
+		n = 600
+	}
+	var out []c16TextIn
+	for _, s := range []string{"", ",", ",,", ",,,", "mon,,", ",,mon", "mon,,,tue", "mon,,,,tue", "-", "~", ":", "-:", "~:", "9:00-", "-9:00", "24:00", "24:01", "25:00",
+		"9:60", "009:00", "9:0", "9:000", "9:00/2", "9:00-10:00/", "/2", "9:00-10:00/2/3", "9:00~10:00~11:00", "9:00-10:00-11:00", "9:00~10:00-11:00",
+		"9:00-10:00~", "mon-tue-wed", "mon0", "mon6", "mon9", "mon5-tue1", "mon2-tue1", "mon1-mon1", "mon3-mon3", "mon1-mon2", "MON", "mon ", " mon", "mo", "monn",
+		"mon12", "mon-", "-mon", "mon--tue", "9:00-10:00/4294967296", "9:00-10:00/4294967295", "9:00-10:00/007", "9:00-10:00/+2", "9:00-10:00/0", "9:00-10:00/00",
+		"0:00-24:00/24", "24:00-24:00", "24:00~24:00/3", "00:00~0:00", "9:00,mon", "mon,9:00,tue", "mon,9:00,10:00", "sun-sat,0:00", "fri5-thu", "thu-fri5",
+		"mon,tue,wed,thu,fri,sat,sun", "1:00,2:00,,3:00", "mon,,9:00", "9:00-10:00,,", "00:00~24:00/4", "mon,10:00,,fri,15:00", "mon-wed,fri,9:00-11:00/2"} {
+		out = append(out, c16TextIn{s})
+	}
+	malAlpha := "montuewdhfris0123456789:-~/, "
+	for len(out) < n {
+		switch r.Intn(5) {
+		case 0, 1:
+			out = append(out, c16TextIn{c16GenTimer(r)})
+		case 2:
+			out = append(out, c16TextIn{r.Str(malAlpha, 0, 14)})
+		default:
+			b := []byte(c16GenTimer(r))
+			for k := 1 + r.Intn(2); k > 0 && len(b) > 0; k-- {
+				p := r.Intn(len(b))
+				switch r.Intn(3) {
+				case 0:
+					b[p] = malAlpha[r.Intn(len(malAlpha))]
+				case 1:
+					b = append(b[:p], b[p+1:]...)
+				default:
+					b = append(b[:p], append([]byte{malAlpha[r.Intn(len(malAlpha))]}, b[p:]...)...)
+				}
+			}
+			out = append(out, c16TextIn{string(b)})
+		}
+	}
+	return out
+}
+
+func TestVerifC16Text(t *testing.T) { vh.Run(c16TextGen, c16TextExec) }
